@@ -33,4 +33,7 @@ pev ev_query(uint8_t tos, int realsrc, int ethsrc, uint16_t seq);
 pev ev_qlt(uint8_t tos, int realsrc, int ethsrc, uint16_t seq, uint8_t type, uint16_t off);
 pev ev_emit1(uint8_t tos, int realsrc, int ethsrc, uint16_t seq, uint8_t type, uint8_t pause, int src, int dst);
 pev ev_raw(uint8_t tos, uint8_t opcode, int realsrc, int ethsrc);
+/* protocol alphabets: SIGMA_P (C02/C09/C18), SIGMA_DISC (C03, Discover family widened), SIGMA_SMALL (quick product runs) */
+enum { SIGMA_P = 0, SIGMA_DISC = 1, SIGMA_SMALL = 2 };
+int sigma_build(pev *out, int cap, int variant);
 #endif
